@@ -281,6 +281,39 @@ def gate(ctx) -> None:
     sub = prog.func(f'{SPAN}:Traversal.subscribers')
     conds = [(core.src(t), pol) for r in core.walk_local(sub.node) if isinstance(r, ast.Raise) for t, pol in cfg.guards(r, sub.node, siblings=False) if isinstance(core.parent(r), ast.If) and core.parent(r).test is t]
     ctx.check(('node in self.members', True) in conds and 'Cyclic' in core.src(sub.node), 'C11.gate', sub, 'a subscriber that is already on the traversal path is a cycle', sub.node, key='traversal:cyclic')
+    # The membership test of `subscribers` runs *after* its mask: a mask that remembers visited nodes hides a back edge
+    # from the Cyclic check (legitimate in `each`, which walks an already traced segment).  The tracer `tail` must
+    # therefore enumerate successors through state-free masks only (`mappers`, or a mask closing over no tail-local).
+    tl = prog.func(f'{SPAN}:Traversal.tail')
+    tail_locals = {t.id for n in ast.walk(tl.node) for t in ast.walk(n) if isinstance(n, (ast.Assign, ast.AnnAssign, ast.AugAssign, ast.For, ast.NamedExpr)) and isinstance(t, ast.Name) and isinstance(t.ctx, ast.Store)}
+    nested = {d.name: d for d in ast.walk(tl.node) if isinstance(d, (ast.FunctionDef,)) and d is not tl.node}
+    succ = [c for c in ast.walk(tl.node) if isinstance(c, ast.Call) and isinstance(c.func, ast.Attribute) and c.func.attr in ('mappers', 'subscribers')]
+    ctx.floor('C11.gate/tail-successors', len(succ), 2)
+    for c in succ:
+        mk = next((k.value for k in c.keywords if k.arg == 'mask'), None)
+        if mk is None:
+            ctx.ok('C11.gate', tl, 'the tail tracer enumerates successors without a caller-side mask', c)
+            continue
+        seen_fns, work, stateful = set(), [mk], []
+        while work:
+            m = work.pop()
+            if isinstance(m, ast.Name) and m.id in nested:
+                m = nested[m.id]
+            if id(m) in seen_fns:
+                continue
+            seen_fns.add(id(m))
+            if isinstance(m, (ast.Lambda, ast.FunctionDef)):
+                params = {a.arg for a in m.args.args + m.args.kwonlyargs + m.args.posonlyargs}
+                body = [m.body] if isinstance(m, ast.Lambda) else m.body
+                own = {t.id for b in body for t in ast.walk(b) if isinstance(t, ast.Name) and isinstance(t.ctx, ast.Store)}
+                for b in body:
+                    for t in ast.walk(b):
+                        if isinstance(t, ast.Name) and isinstance(t.ctx, ast.Load) and t.id not in params and t.id not in own:
+                            if t.id in nested:
+                                work.append(nested[t.id])
+                            elif t.id in tail_locals:
+                                stateful.append(t.id)
+        ctx.check(not stateful, 'C11.gate', tl, 'the tail tracer filters successors with a state-free mask only (a mask that remembers visited nodes is applied before the Cyclic membership test and hides back edges)', c, key='traversal:tail-mask-pure', closes_over=sorted(set(stateful)))
     tn = prog.func(f'{SPAN}:Traversal.__new__')
     ctx.check('frozenset(members | {pivot})' in core.src(tn.node), 'C11.gate', tn, 'the traversal path accumulates every visited pivot', tn.node, key='traversal:members')
 
